@@ -250,13 +250,20 @@ def archive_features(members, staged_links=()):
 def manifest_features(entries):
     """entries: ordered [(key, method, ...)].  N: a relative key that leaves the instance directory; A: an absolute
     key; L: a key that passes through an earlier key deployed with method link; C: the key `conf` deployed with method
-    link (deployment itself writes the workflow definition into <instance>/conf after applying the manifest)."""
+    link (deployment itself writes the workflow definition into <instance>/conf after applying the manifest); F: a
+    link-method key conf/<definition file> or data/<replaced data file> (see LATER_WRITTEN_IN)."""
     f = set()
     linked = []
     for e in entries:
         key, method = e[0], e[1]
         if not key.startswith('/') and _norm(key) == 'conf' and method == 'link':
             f.add('C')
+        if not key.startswith('/') and method == 'link':
+            # F: a link-method entry placed INSIDE conf/ or data/ under the name of a file that deployment / instance
+            # creation writes afterwards (the later write goes through the link)
+            parts = _norm(key).split('/')
+            if len(parts) == 2 and parts[1] in LATER_WRITTEN_IN.get(parts[0], ()):
+                f.add('F')
         if key.startswith('/'):
             f.add('A')
         elif lexically_escapes(key) or _norm(key) == '.':
@@ -379,13 +386,15 @@ def simulate_archive(members, dest, existing_files=(), existing_dirs=(), existin
 
 # the files that deploying a package / creating an instance writes into <instance>/conf
 DEPLOY_CONF_FILES = ('flowir_package.yaml', 'dsl.yaml', 'flowir_instance.yaml', 'manifest.yaml')
+# ... and, with experimentFromPackage(data=[big.csv]), into <instance>/data
+LATER_WRITTEN_IN = {'conf': DEPLOY_CONF_FILES, 'data': ('big.csv',)}
 
 
 def manifest_targets(entries, inst, sources):
     """entries: ordered [(key, method, source index)]; inst: absolute path of the instance directory; sources:
-    absolute paths of the source folders. Returns the Reach of a deployment that trusts the keys (including the
-    files deployment itself writes into <instance>/conf once the manifest has been applied: if `conf` has become a
-    link, exactly those files in the link's target, and the target's own mtime)."""
+    absolute paths of the sources (sources[i] is what entry i deploys; folders or files). Returns the Reach of a
+    deployment that trusts the keys, including the files deployment itself writes into <instance>/conf and /data once
+    the manifest has been applied: exactly those files wherever links make them land, and the mtime of a linked conf."""
     v = VFS()
     v.mkdirs(inst)
     for s in sources:
@@ -407,6 +416,8 @@ def manifest_targets(entries, inst, sources):
     conf = v.resolve(posixpath.join(inst, 'conf'), True, [])
     if conf is not None and not _inside(conf, inst):
         reach.touch(conf, False)
-        for name in DEPLOY_CONF_FILES:
-            reach.touch(posixpath.join(conf, name), False)
+    # the later writes: each goes to wherever <instance>/<folder>/<name> physically is once the manifest is applied
+    for folder, names in LATER_WRITTEN_IN.items():
+        for name in names:
+            reach.touch_with_parent(v.resolve(posixpath.join(inst, folder, name), True, []), False)
     return reach
